@@ -1,5 +1,6 @@
 import Proofs.ExtractShape
 import Proofs.ExtractPerm
+import Proofs.ExtractSql
 
 /-!
   C14 — Component extraction mirrors the BridgePoint class model.
@@ -293,6 +294,72 @@ theorem extract_deterministic_under_row_order {d d' : ClassDiagram} (hp : RowPer
     (extract d comp drv).groups.Perm (extract d' comp drv).groups :=
   extract_perm hp wf comp drv
 
+/-! ### schema_reload: the SQL written for the component loads back to the same definitions -/
+
+/-- `gen_sql_schema.main` ends with `xtuml.persist_database(component, path)`.  For EVERY diagram whose key
+    letters, attribute names and core type names are identifiers of the SQL dialect (`NamesOk`; the lexical
+    domain of C01), every component and both settings of the derived flag: the text of that route — per class in
+    sorted order its CREATE TABLE and CREATE UNIQUE INDEX lines, then the CREATE ROP lines sorted by rel_id —
+    exists, the loader's lexer and parser (`Pyx.Sql.classify`, character level) accept it, the statements
+    parsed are exactly the statements of the written items, and the definitions those statements carry
+    (`stmtDef`: the arguments `populate_classes` / `populate_unique_identifiers` / `populate_associations` pass to
+    define_class / define_unique_identifier / define_association, cardinalities decoded by `'M' in c`, `'C' in c`)
+    are the written items again, type names upper-cased.  Rests on C01's `route_roundtrip` (builder-B's SQL
+    model), instantiated with `(extract d comp drv).toMM`. -/
+theorem schema_reload {u : Pyx.Sql.UC} {d : ClassDiagram} (names : NamesOk u d) (comp : Option Nat) (drv : Bool) :
+    ∃ text stmts,
+      Pyx.Sql.printItems u (((extract d comp drv).toMM).persistDatabase u) = some text ∧
+      Pyx.Sql.classify u text = .accepted stmts ∧
+      Pyx.Sql.itemsStmts u (((extract d comp drv).toMM).persistDatabase u) = some stmts ∧
+      stmts.filterMap stmtDef = (((extract d comp drv).toMM).persistDatabase u).map (Pyx.Sql.canonItem u) := by
+  obtain ⟨text, stmts, h1, h2, h3, h4⟩ := reload_routes names comp drv _
+    (by simp [Pyx.Sql.MM.routes] : ((extract d comp drv).toMM).persistDatabase u ∈ ((extract d comp drv).toMM).routes u)
+  exact ⟨text, stmts, h1, h3, h2, h4⟩
+
+/-- the same for each of the eight writer routes of xtuml/persist.py (serialize_schema,
+    serialize_unique_identifiers, persist_schema, …) -/
+theorem schema_reload_routes {u : Pyx.Sql.UC} {d : ClassDiagram} (names : NamesOk u d) (comp : Option Nat) (drv : Bool)
+    (r : List Pyx.Sql.Item) (hr : r ∈ ((extract d comp drv).toMM).routes u) :
+    ∃ text stmts, Pyx.Sql.printItems u r = some text ∧ Pyx.Sql.itemsStmts u r = some stmts ∧
+      Pyx.Sql.classify u text = .accepted stmts ∧ stmts.filterMap stmtDef = r.map (Pyx.Sql.canonItem u) :=
+  reload_routes names comp drv r hr
+
+/-- … and for `serialize_schema(c) + serialize_unique_identifiers(c)`, the text the check's harness reloads -/
+theorem schema_reload_serialized {u : Pyx.Sql.UC} {d : ClassDiagram} (names : NamesOk u d) (comp : Option Nat) (drv : Bool) :
+    ∃ ta tb sa sb,
+      Pyx.Sql.printItems u (((extract d comp drv).toMM).serializeSchema u) = some ta ∧
+      Pyx.Sql.printItems u (((extract d comp drv).toMM).serializeUniqueIdentifiers u) = some tb ∧
+      Pyx.Sql.itemsStmts u (((extract d comp drv).toMM).serializeSchema u) = some sa ∧
+      Pyx.Sql.itemsStmts u (((extract d comp drv).toMM).serializeUniqueIdentifiers u) = some sb ∧
+      Pyx.Sql.classify u (ta ++ tb) = .accepted (sa ++ sb) := by
+  have hwf := toMM_wf names comp drv
+  have hr1 : ((extract d comp drv).toMM).serializeSchema u ∈ ((extract d comp drv).toMM).routes u := by
+    simp [Pyx.Sql.MM.routes]
+  have hr2 : ((extract d comp drv).toMM).serializeUniqueIdentifiers u ∈ ((extract d comp drv).toMM).routes u := by
+    simp [Pyx.Sql.MM.routes]
+  obtain ⟨ta, hta⟩ := printItems_defs u _ (toMM_routes_defs u _ _ hr1)
+  obtain ⟨tb, htb⟩ := printItems_defs u _ (toMM_routes_defs u _ _ hr2)
+  obtain ⟨sa, sb, hsa, hsb, hc⟩ := Pyx.Sql.classify_concat u _ _ ta tb
+    (Pyx.Sql.MM.route_items_wf u _ hwf _ hr1) (Pyx.Sql.MM.route_items_wf u _ hwf _ hr2) hta htb
+  exact ⟨ta, tb, sa, sb, hta, htb, hsa, hsb, hc⟩
+
+/- Not proved (full strength of the clause, kept as the statement to aim for): running the state machine of
+   `ModelLoader.build_metamodel` (`Pyx.Sql.build`, PyxModel/Sql/Build.lean: duplicate-class / unknown-class /
+   key-length / unknown-target-key checks, identifier dict, referential bookkeeping) on those statements,
+
+     theorem schema_reload_build (names : NamesOk u d) (wf : WF d)
+         (upperKls : ((extract d comp drv).classes.map (fun c => u.upper c.kl.toList)).Nodup)
+         (closed : every association end names a class of the schema, its key lists have equal length and its
+                   target keys are attributes of the target class; identifier numbers are unique per class) :
+       ∃ stmts bs, itemsStmts u ((extract d comp drv).toMM.persistDatabase u) = some stmts ∧
+         Pyx.Sql.build u stmts = .ok bs ∧
+         bs.toMM u = { classes := ((extract d comp drv).toMM.sortedClasses u).map canonical,
+                       assocs  := (extract d comp drv).toMM.assocsById }
+
+   `schema_reload` is the part of it below `build`: text -> tokens -> statements -> the arguments of the define_*
+   calls.  The build-level equality is checked on every run by the property predicate (reload-differs) of
+   harness/prop_C14.py through the real xtuml.ModelLoader. -/
+
 /-! ### non-vacuity: a concrete diagram meets the hypotheses, and the edits really change the result -/
 
 /-- Owner (id, name, derived age; I1 = id) and Dog (tag : user type of integer, color : enumeration,
@@ -360,6 +427,37 @@ example : ((extract (applyEdit (.setMult 42 .one true) d0) none false).groups.ma
 example : RowWF d0 ∧ RowPerm d0 ⟨d0.containers.reverse, d0.dts.reverse, d0.classes.reverse, d0.rels.reverse⟩ :=
   ⟨⟨by decide, by decide, by decide⟩,
    ⟨(List.reverse_perm _).symm, (List.reverse_perm _).symm, (List.reverse_perm _).symm, (List.reverse_perm _).symm⟩⟩
+
+/-- the names of d0 are in the lexical domain of the SQL dialect, for every view `u` of the non-ASCII characters -/
+theorem d0_namesOk (u : Pyx.Sql.UC) : NamesOk u d0 := by
+  have up : ∀ w : Pyx.Sql.Text, Pyx.Sql.AsciiText w → u.upper w = w.map Pyx.Sql.asciiUpper :=
+    fun w h => Pyx.Sql.upper_ascii u w h
+  refine ⟨?_, ?_, ?_⟩
+  · intro c hc
+    simp only [d0, List.mem_cons, List.not_mem_nil, or_false] at hc
+    rcases hc with rfl | rfl | rfl <;> exact ⟨by decide, by decide, by decide, by decide⟩
+  · intro c hc a ha
+    simp only [d0, List.mem_cons, List.not_mem_nil, or_false] at hc
+    rcases hc with rfl | rfl | rfl <;> simp only [List.mem_cons, List.not_mem_nil, or_false] at ha <;>
+      rcases ha with rfl | rfl | rfl <;> exact ⟨by decide, by decide, by decide, by decide⟩
+  · intro t ht n hk h1 h5
+    simp only [d0, List.mem_cons, List.not_mem_nil, or_false] at ht
+    rcases ht with rfl | rfl | rfl | rfl | rfl
+    · rw [up _ (by unfold Pyx.Sql.AsciiText; decide)]; exact ⟨by decide, by decide, by decide, by decide⟩
+    · rw [up _ (by unfold Pyx.Sql.AsciiText; decide)]; exact ⟨by decide, by decide, by decide, by decide⟩
+    · simp only [DtKind.core.injEq] at hk; omega
+    · simp at hk
+    · simp at hk
+
+/-- the metamodel the writers see for d0's component: three classes, three associations (R2 twice) -/
+example : ((extract d0 (some 6) false).toMM).classes.map (fun c => (c.kind, c.attrs.map (·.1), c.indices.map (·.2))) =
+      [("OWN".toList, ["id".toList, "name".toList], [["id".toList]]),
+       ("DOG".toList, ["tag".toList, "color".toList, "owner_id".toList], [["tag".toList]]),
+       ("LSH".toList, ["front".toList, "back".toList], [["front".toList, "back".toList]])] ∧
+    ((extract d0 (some 6) false).toMM).assocs.map (fun a => (a.src.kind, a.src.keys, a.src.many, a.src.cond, a.tgt.kind)) =
+      [("DOG".toList, ["owner_id".toList], true, true, "OWN".toList),
+       ("LSH".toList, ["front".toList], true, false, "DOG".toList),
+       ("LSH".toList, ["back".toList], false, true, "DOG".toList)] := by decide
 
 /-- moving Owner and R1 out of the component removes exactly them -/
 example : (extract (applyEdits [.moveRel 41 .none, .moveClass 1 (.pkg 7)] d0) (some 6) false).classes.map (·.kl) =
